@@ -55,6 +55,10 @@ def gen_plan(ch: Chooser, tier: str) -> dict[str, Any]:
             {'id': 'dm', 'kind': 'daemon', 'opts': {'cancellation_backoff': 0.5, 'cancellation_timeout': 1.0},
              'daemon': {'mode': ch.choice(['obey', 'poll', 'cancel'])}},
         ]
+        if handlers[2]['daemon']['mode'] != 'cancel' and ch.bool(0.3):
+            handlers[2]['daemon']['sync'] = True   # a synchronous daemon (simulated thread)
+        if ch.bool(0.2):
+            handlers[0]['sync'] = True
         operators.append({'id': f'op{i + 1}', 'settings': settings, 'handlers': handlers, 'standalone': False,
                           'peering_name': 'default', 'priority': prios[i]})
         t0 = 0.0 if i == 0 or ch.bool(0.4) else round(ch.float(0.0, horizon * 0.5), 6)
